@@ -241,7 +241,25 @@ func c12HostPolicyIn(c *Ctx, rule string, fn *ssa.Function, depth int) {
 			b, f, ok := fieldLoad(strip(x))
 			return ok && f.Name() == "hosts" && b == ssa.Value(hP)
 		}
-		gEq := GOr(GEq(isHostsElem, func(x ssa.Value) bool { return sameLoc(x, v) }), GContains(isHostsSlice, func(x ssa.Value) bool { return sameLoc(x, v) }))
+		// ... or membership in an index NewHandler built from the configured hosts: _, ok := h.hostSet[v]
+		idxFields := c.hostIndexFields()
+		gMember := func(cond ssa.Value, branch bool) bool {
+			core, neg := normCond(cond)
+			ex, ok := core.(*ssa.Extract)
+			if !ok || ex.Index != 1 || branch == neg {
+				return false
+			}
+			lk, ok := ex.Tuple.(*ssa.Lookup)
+			if !ok || !lk.CommaOk {
+				return false
+			}
+			_, f, ok := fieldLoad(strip(rv(lk.X)))
+			if !ok {
+				_, f, ok = fieldLoad(strip(lk.X))
+			}
+			return ok && idxFields[f] && (sameLoc(rv(lk.Index), v) || sameLoc(lk.Index, v))
+		}
+		gEq := GOr(GEq(isHostsElem, func(x ssa.Value) bool { return sameLoc(x, v) }), GContains(isHostsSlice, func(x ssa.Value) bool { return sameLoc(x, v) }), gMember)
 		ok1, _ := mustPass(fn, e, gEq)
 		ok2, why := mustPass(fn, e, gAny)
 		switch {
@@ -573,6 +591,9 @@ func c12HandlerWiring(c *Ctx) {
 		if good {
 			b, cf, ok := fieldLoad(localVal(peelCopy(vs[0])))
 			good = ok && cfg != nil && b == cfg
+			if !good && c.hostIndexFields()[hT.Field(i)] {
+				good, ok, how = true, false, "Hosts (as an index built by ranging over it)"
+			}
 			if ok {
 				how = cf.Name()
 			}
@@ -646,4 +667,77 @@ func c12ConfigWiring(c *Ctx) {
 		c.Check(good, rule, "web.Config."+field, nh.Pos(), "= conf."+want[field]+" on every path to NewHandler", "web.Config."+field+" is "+why+" (expected conf."+want[field]+" unconditionally): the download handler enforces something else than configured")
 	}
 	c.Floor(rule, 5, "five configuration fields")
+}
+
+// hostIndexFields: the fields of web.Handler that hold a map NewHandler fills only with m[h] = ...
+// for h ranging over Config.Hosts — a membership index of the configured hosts.
+func (c *Ctx) hostIndexFields() map[*types.Var]bool {
+	out := map[*types.Var]bool{}
+	nh := c.FnOpt("cmd/rdpgw/web", "Config.NewHandler")
+	if nh == nil {
+		return out
+	}
+	cfgP := nh.Params[0]
+	isHostsRangeElem := func(v ssa.Value) bool {
+		a, ok := loadAddr(strip(v))
+		if !ok {
+			return false
+		}
+		ia, ok := a.(*ssa.IndexAddr)
+		if !ok {
+			return false
+		}
+		b, f, ok := fieldLoad(strip(ia.X))
+		return ok && f.Name() == "Hosts" && b == ssa.Value(cfgP)
+	}
+	eachInstr(nh, func(in ssa.Instruction) {
+		mm, ok := in.(*ssa.MakeMap)
+		if !ok {
+			return
+		}
+		n, good := 0, true
+		var field *types.Var
+		for _, r := range *mm.Referrers() {
+			switch x := r.(type) {
+			case *ssa.MapUpdate:
+				n++
+				if x.Map != ssa.Value(mm) || !isHostsRangeElem(x.Key) {
+					good = false
+				}
+			case *ssa.Store:
+				if _, f, ok := fieldOfAddr(x.Addr); ok && x.Val == ssa.Value(mm) {
+					field = f
+				} else {
+					good = false
+				}
+			case *ssa.DebugRef:
+			default:
+				good = false
+			}
+		}
+		if good && n > 0 && field != nil {
+			out[field] = true
+		}
+	})
+	// nothing else writes such a field or its map
+	for f := range out {
+		for _, fn := range c.allFirstPartyFuncs() {
+			if fn == nh {
+				continue
+			}
+			eachInstr(fn, func(in ssa.Instruction) {
+				switch x := in.(type) {
+				case *ssa.Store:
+					if _, fv, ok := fieldOfAddr(x.Addr); ok && fv == f {
+						delete(out, f)
+					}
+				case *ssa.MapUpdate:
+					if _, fv, ok := fieldLoad(strip(x.Map)); ok && fv == f {
+						delete(out, f)
+					}
+				}
+			})
+		}
+	}
+	return out
 }
